@@ -23,8 +23,10 @@ transition under test so that shortcut counters count transitions, not
 replays.
 """
 import collections
+import contextlib
 import multiprocessing
 import os
+import signal
 import time
 import traceback
 
@@ -33,6 +35,36 @@ from mc.canon import digest
 from mc.report import Violation, HarnessError
 
 _DRIVER = None
+OP_SECONDS = 20       # one transition incl. its state check
+CASE_SECONDS = 300    # one case of an enumerated family
+
+
+class OpTimeout(BaseException):
+    """A single operation of the library did not return within the wall
+    clock net (seconds, not milliseconds: three orders of magnitude above a
+    normal operation).  BaseException so that library code cannot swallow
+    it."""
+
+
+@contextlib.contextmanager
+def wall_net(seconds):
+    """Wall-clock safety net around one operation / case (main thread of a
+    worker process).  The deterministic step budget of mc.guard is used where
+    termination is part of the property; this net only keeps a hang in a
+    changed tree from hanging the check."""
+    def on_alarm(signum, frame):
+        raise OpTimeout(f'no return within {seconds}s')
+    try:
+        old = signal.signal(signal.SIGALRM, on_alarm)
+    except ValueError:          # not in the main thread
+        yield
+        return
+    signal.setitimer(signal.ITIMER_REAL, seconds)
+    try:
+        yield
+    finally:
+        signal.setitimer(signal.ITIMER_REAL, 0)
+        signal.signal(signal.SIGALRM, old)
 
 
 class Pruned(Exception):
@@ -101,8 +133,15 @@ def _expand(task):
                 ctx.hits = collections.Counter()
                 ctx.under_test = True   # prefix replays are known to be clean
                 try:
-                    driver.apply(ctx, op)
-                    obs = driver.check(ctx)
+                    try:
+                        with wall_net(OP_SECONDS):
+                            driver.apply(ctx, op)
+                            obs = driver.check(ctx)
+                    except OpTimeout as t:
+                        raise Violation(
+                            'operation_terminates',
+                            f'{op!r} (or the queries after it) did not '
+                            f'return: {t}', op=op[0] if op else None)
                 except Violation as v:
                     out.append(('viol', hist, op,
                                 (v.clause, v.detail, v.features)))
@@ -226,6 +265,12 @@ def explore(driver, rep, part=None, max_depth=None, max_states=None,
                     stop = (f'time budget {time_budget}s reached at depth '
                             f'{depth + 1}')
                     break
+                if rep.violations and time.time() - t0 > 45:
+                    # the verdict is already a violation: do not burn the
+                    # whole budget on a space the defect may have made huge
+                    stop = (f'stopped at depth {depth + 1}: violations found '
+                            f'and 45s spent in this part')
+                    break
             levels.append(len(nxt))
             if nxt and len(samples) < 6:
                 samples.append(list(nxt[len(nxt) // 2][0]))
@@ -279,7 +324,12 @@ def _run_chunk(cases):
     out = []
     for case in cases:
         try:
-            info = _RUNNER(case)
+            try:
+                with wall_net(CASE_SECONDS):
+                    info = _RUNNER(case)
+            except OpTimeout as t:
+                raise Violation('operation_terminates',
+                                f'case did not finish: {t}')
             out.append(('ok', case, info))
         except Violation as v:
             out.append(('viol', case, (v.clause, v.detail, v.features)))
